@@ -15,24 +15,24 @@ type capTB struct {
 	skipped bool
 }
 
-func (c *capTB) Helper()                  {}
-func (c *capTB) Name() string             { return "vh-c17" }
-func (c *capTB) Log(...any)               {}
-func (c *capTB) Logf(string, ...any)      {}
-func (c *capTB) Error(...any)             { c.errors++ }
-func (c *capTB) Errorf(string, ...any)    { c.errors++ }
-func (c *capTB) Fail()                    { c.errors++ }
-func (c *capTB) Failed() bool             { return c.fatal || c.errors > 0 }
-func (c *capTB) Fatal(...any)             { c.fatal = true; runtime.Goexit() }
-func (c *capTB) Fatalf(string, ...any)    { c.fatal = true; runtime.Goexit() }
-func (c *capTB) FailNow()                 { c.fatal = true; runtime.Goexit() }
-func (c *capTB) Skip(...any)              { c.skipped = true; runtime.Goexit() }
-func (c *capTB) Skipf(string, ...any)     { c.skipped = true; runtime.Goexit() }
-func (c *capTB) SkipNow()                 { c.skipped = true; runtime.Goexit() }
-func (c *capTB) Skipped() bool            { return c.skipped }
-func (c *capTB) Cleanup(func())           {}
-func (c *capTB) Setenv(string, string)    {}
-func (c *capTB) TempDir() string          { return "" }
+func (c *capTB) Helper()               {}
+func (c *capTB) Name() string          { return "vh-c17" }
+func (c *capTB) Log(...any)            {}
+func (c *capTB) Logf(string, ...any)   {}
+func (c *capTB) Error(...any)          { c.errors++ }
+func (c *capTB) Errorf(string, ...any) { c.errors++ }
+func (c *capTB) Fail()                 { c.errors++ }
+func (c *capTB) Failed() bool          { return c.fatal || c.errors > 0 }
+func (c *capTB) Fatal(...any)          { c.fatal = true; runtime.Goexit() }
+func (c *capTB) Fatalf(string, ...any) { c.fatal = true; runtime.Goexit() }
+func (c *capTB) FailNow()              { c.fatal = true; runtime.Goexit() }
+func (c *capTB) Skip(...any)           { c.skipped = true; runtime.Goexit() }
+func (c *capTB) Skipf(string, ...any)  { c.skipped = true; runtime.Goexit() }
+func (c *capTB) SkipNow()              { c.skipped = true; runtime.Goexit() }
+func (c *capTB) Skipped() bool         { return c.skipped }
+func (c *capTB) Cleanup(func())        {}
+func (c *capTB) Setenv(string, string) {}
+func (c *capTB) TempDir() string       { return "" }
 
 // capture runs one helper call in its own goroutine (t.Fatal ends it with runtime.Goexit, as the
 // testing package does) and reports whether it was fatal. A panic or a non-fatal t.Error is
